@@ -24,7 +24,7 @@ def one(sd: str, tier: str):
         r = subprocess.run(["/venv/bin/python", "-m", "sa", prop, "--tier", tier], cwd="/verif", env=env,
                            capture_output=True, text=True)
         first = next((l.strip()[:200] for l in r.stdout.splitlines() if l.startswith(("  finding", "ANALYSIS-ERROR"))), "")
-        if meta.get("kind") == "refactor":
+        if meta.get("kind") in ("refactor", "out-of-scope"):
             return sid, prop, {0: "silent", 1: "FALSE-ALARM", 2: "analysis-error"}.get(r.returncode, f"rc={r.returncode}"), first
         return sid, prop, {0: "missed", 1: "detected", 2: "analysis-error"}.get(r.returncode, f"rc={r.returncode}"), first
     finally:
